@@ -3,17 +3,14 @@
    Base/GoSem.v: data[i] is [idx], data[a:b] is [slice].  The lexmachine scanner used for the
    regular-expression patterns is third-party code and is not modelled.  No proofs here. *)
 From Verif Require Import Base.Sx Base.GoSem Model.Decoders.Common Model.Actions.ConvertUtf8.
-From Coq Require Strings.String.
-
+(* the placeholders as byte lists (no Coq string in the extracted model) *)
 Module PH.
-  Import Strings.String.
-  Local Open Scope string_scope.
-  Definition curly := bs "<curly_bracketed>".
-  Definition square := bs "<square_bracketed>".
-  Definition paren := bs "<parenthesized>".
-  Definition dquoted := bs "<double_quoted>".
-  Definition squoted := bs "<single_quoted>".
-  Definition grave := bs "<grave_quoted>".
+  Definition curly : bytes := [60; 99; 117; 114; 108; 121; 95; 98; 114; 97; 99; 107; 101; 116; 101; 100; 62]%N.     (* <curly_bracketed> *)
+  Definition square : bytes := [60; 115; 113; 117; 97; 114; 101; 95; 98; 114; 97; 99; 107; 101; 116; 101; 100; 62]%N.    (* <square_bracketed> *)
+  Definition paren : bytes := [60; 112; 97; 114; 101; 110; 116; 104; 101; 115; 105; 122; 101; 100; 62]%N.     (* <parenthesized> *)
+  Definition dquoted : bytes := [60; 100; 111; 117; 98; 108; 101; 95; 113; 117; 111; 116; 101; 100; 62]%N.   (* <double_quoted> *)
+  Definition squoted : bytes := [60; 115; 105; 110; 103; 108; 101; 95; 113; 117; 111; 116; 101; 100; 62]%N.   (* <single_quoted> *)
+  Definition grave : bytes := [60; 103; 114; 97; 118; 101; 95; 113; 117; 111; 116; 101; 100; 62]%N.     (* <grave_quoted> *)
 End PH.
 
 (* pattern ids: 1 curly | 2 square | 3 parenthesized | 4 double quoted | 5 single quoted | 6 grave quoted *)
@@ -44,7 +41,7 @@ Fixpoint run_len (fuel : nat) (c : byte) (i n : Z) : res Z :=
         if beq x c then run_len f c (i + 1) (n + 1) else Ok n
       else Ok n
   end.
-Definition run (c : byte) (from : Z) : res Z := run_len (S (length data)) c from 0.
+Definition quote_run (c : byte) (from : Z) : res Z := run_len (S (length data)) c from 0.
 
 (* tokenizer.nextToken from position i with the per-call state (curPattern, counter, startPattern);
    Some (pattern, begin, end): a token, t.pos = end afterwards; None: end of data *)
@@ -67,13 +64,13 @@ Fixpoint next_loop (fuel : nat) (i cur counter start : Z) : res (option (Z * Z *
           else Ok (Some (p, start, i + 1))
       | KQuote p =>                                                        (* processQuotes *)
           if cur =? 0 then
-            k <- run c (i + 1) ;;
+            k <- quote_run c (i + 1) ;;
             next_loop f (i + k + 1) p (1 + k) i
           else if cur =? p then
             esc <- (if 0 <? i then x <- idx data (i - 1) ;; Ok (beq x BSL) else Ok false) ;;
             if esc then next_loop f (i + 1) cur counter start
             else
-              k <- run c (i + 1) ;;
+              k <- quote_run c (i + 1) ;;
               if 0 <? counter - 1 - k then next_loop f (i + k + 1) cur counter start
               else Ok (Some (p, start, i + counter))
           else next_loop f (i + 1) cur counter start
